@@ -18,9 +18,11 @@ import random
 from harness import common
 from harness import c06 as K
 from harness.c06 import INSTANCE, Result, Batch, judge, model_info, MODEL_NAMES
-from harness.common import timed
 
-THEOREMS = ['C03_content_preserved', 'C03_zero_is_written']
+THEOREMS = ['C03_content_preserved_partial', 'C03_encoding_total_and_faithful', 'C03_top_and_nodes',
+            'C03_canonical_roles_invertible', 'C03_graph_constructor_roles', 'C03_zero_is_written', 'C03_number_text',
+            'C03_atom_omitted_iff_missing', 'C03_F5_witness_zero_written', 'C03_zero_concept_written',
+            'C03_hypotheses_satisfiable', 'C03_connected_hypotheses_satisfiable']
 
 
 # ============================================================================================
@@ -48,12 +50,12 @@ def pipeline_requests(batch, info, tree, s, case):
     if batch.exe is None or info.wm is None:
         return
     try:
-        s_fmt = timed(penman.format, tree, seconds=K.HANG_S)
+        s_fmt = K.guarded(penman.format, tree)
         batch.add_raw('(3 (-1) 0 %s)' % K.tree_txt(tree), K.str_txt(s_fmt), 'format', s_fmt, case, common.d_str)
-        t2 = timed(penman.parse, s, seconds=K.HANG_S)
+        t2 = K.guarded(penman.parse, s)
         batch.add_raw('(2 %s)' % K.str_txt(s), '(0 %s)' % K.tree_txt(t2), 'parse',
                       ['ok', K._jsonable(K.norm_node(t2.node)), dict(t2.metadata)], case, canon_tree_wire)
-        g2 = timed(layout.interpret, t2, info.m, seconds=K.HANG_S)
+        g2 = K.guarded(layout.interpret, t2, info.m)
         batch.add_raw('(4 %s %s)' % (info.wm, K.tree_txt(t2)), '(0 %s)' % K.graph_txt(g2), 'interpret',
                       ['ok', K._jsonable(common.canon_graph(g2))], case, canon_graph_wire)
     except Exception:                                              # noqa: BLE001  (the oracle reports it)
@@ -108,7 +110,7 @@ def explore_graph(res, batch, info, rng, stream, base, variables, seen_texts, li
                 continue
             # ---- with the markers of a prior decode: re-encode from every top, also with permuted triples
             try:
-                g2 = timed(K._decode, s, info.m, seconds=K.HANG_S)
+                g2 = K.guarded(K._decode, s, info.m)
             except Exception:                                      # noqa: BLE001  (already reported by judge)
                 continue
             if len(set(g2.triples)) != len(g2.triples):
@@ -300,7 +302,7 @@ def run(chk):
 
     K.run_stream(chk, 'hand', hand_worker, [(exe, m) for m in MODEL_NAMES])
 
-    nitems = 64 if quick else 960
+    nitems = 64 if quick else 600
     items = [(exe, rng.getrandbits(48), 8 if quick else 20, 6 if (quick or i % 2) else 8, MODEL_NAMES)
              for i in range(nitems)]
     K.run_stream(chk, 'rand', rand_worker, items)
